@@ -785,7 +785,7 @@ def o3b(proj, rep, modules):
 
 # ------------------------------------------------------------------------------------------------ W8
 RULE_W8 = ('W8: a forward trivialization map (`to_*` in numqi.manifold, Module.forward) applies no saturating function (clip / clamp / maximum / minimum / relu / '
-           'hardtanh / floor / ceil / round / sign) to a value derived from its parameter: the map would be constant in that coordinate on an open set, so '
+           'hardtanh / floor / ceil / round / sign, or the complex sign x/|x| used as a gauge fixing) to a value derived from its parameter: the map would be constant in that coordinate on an open set, so '
            'the Jacobian loses a column at every generic point outside the box and gradient descent cannot leave the face it lands on.')
 _SATURATING = {'clip', 'clamp', 'clamp_min', 'clamp_max', 'clamp_', 'clip_', 'maximum', 'minimum', 'fmax', 'fmin', 'relu', 'hardtanh', 'floor', 'ceil', 'round', 'sign',
                'heaviside', 'trunc', 'rint'}
@@ -863,9 +863,19 @@ def w8(proj, rep, modules):
             if any(tainted(o, dep) for o in operands):
                 bad = c
                 break
+        if bad is None:
+            # the complex sign x/|x| (or conj(x)/|x|) is a saturating function too: a gauge fixing that removes a phase coordinate
+            for b in ast.walk(fi.node):
+                if isinstance(b, ast.BinOp) and isinstance(b.op, ast.Div) and isinstance(b.right, ast.Call) and ast.unparse(b.right.func).split('.')[-1] in ('abs', 'absolute') \
+                        and b.right.args and not isinstance(_stmt(b), ast.Assert):
+                    num, _c = _split_conj(b.left)
+                    if ast.dump(num) == ast.dump(b.right.args[0]) and tainted(num, dep):
+                        bad = b
+                        break
         if bad is not None:
-            rep.violation('W8', fi.qual, f'`{ast.unparse(bad)[:70]}` saturates a value derived from the parameter: outside the box the map does not depend on that coordinate '
-                          f'(zero Jacobian column)', m, bad)
+            why = 'divides a parameter-derived value by its own modulus (gauge fixing): the map no longer depends on that phase / sign coordinate' if isinstance(bad, ast.BinOp) \
+                else 'saturates a value derived from the parameter: outside the box the map does not depend on that coordinate'
+            rep.violation('W8', fi.qual, f'`{ast.unparse(bad)[:70]}` {why} (zero Jacobian column)', m, bad)
         else:
             rep.ok('W8', fi.qual, 'no saturating function on the parameter path', m, fi.node, text=f'{fi.qual} saturation')
     rep.count('W8.forward_maps', n)
@@ -1166,7 +1176,7 @@ def pr1_e6(proj, rep, modules):
 
 # ------------------------------------------------------------------------------------------------ D6 / NR1 / PG1
 RULE_D6 = ('D6: the sweep over the gate list dispatches EVERY gate: a loop over `gate_index_list` in the simulator contains no `continue` / `break` that skips a gate '
-           'before its kind is dispatched ("identity at zero angle" holds for the built-in rotations, not for a user-registered parameter gate).')
+           'on anything but its kind / name ("identity at zero angle" holds for the built-in rotations, not for a user-registered parameter gate).')
 RULE_NR1 = ('NR1: the simulator primitives `apply_*` are linear maps of the state: their result is never divided by a trace / norm computed from the data '
             '(re-normalising K rho K^dagger erases the outcome probability of a Kraus operator or projector and is a no-op only for unitaries).')
 RULE_PG1 = ('PG1: gate parameters are never reduced modulo 2 pi in the simulator / gate modules: spinor rotations are 4 pi periodic, R(theta - 2 pi) = -R(theta), '
@@ -1194,6 +1204,18 @@ def sim_sweeps(proj, rep, modules=('numqi.sim', 'numqi.gate')):
                 rep.touch(m)
                 skips = [x for s in lp.body for x in ast.walk(s) if isinstance(x, (ast.Continue, ast.Break))
                          and not any(isinstance(p, (ast.For, ast.While)) and p is not lp for p in _ancestors(x, lp))]
+                # a skip decided by the gate's kind / name alone (string literals) is structural: "no arm for this kind", not "this gate does nothing"
+                def structural(g):
+                    cond = next((p for p in _ancestors(g, lp) if isinstance(p, ast.If)), None)
+                    if cond is None:
+                        return False
+                    for y in ast.walk(cond.test):
+                        if isinstance(y, ast.Call):
+                            return False
+                        if isinstance(y, ast.Name) and not (isinstance(getattr(y, '_parent', None), ast.Attribute) and y._parent.attr in ('kind', 'name')):
+                            return False
+                    return True
+                skips = [g for g in skips if not structural(g)]
                 if skips:
                     g = skips[0]
                     cond = next((p for p in _ancestors(g, lp) if isinstance(p, ast.If)), None)
@@ -1528,4 +1550,47 @@ def al3(proj, rep, modules=None):
                 else:
                     rep.ok('AL3', fi.qual, f'`{key}` stored as `{ast.unparse(v)[:40]}`', m, c)
     rep.count('AL3.memo_keys', n)
+    return n
+
+
+
+# ------------------------------------------------------------------------------------------------ DT7
+RULE_DT7 = ('DT7: an array that is complex on some path of the function (it is assigned an expression with a `1j` term, or built by torch.complex / a complex dtype) is '
+            'never cast to a real floating dtype (`astype(np.float32)`, `.to(torch.float32)`, `.float()`, `.double()`): the cast discards the imaginary part with '
+            'at most a warning. (Taking `.real` says so explicitly and is not reported.)')
+_REAL_DT = ('float16', 'float32', 'float64', 'float_', 'double', 'half', 'float')
+
+
+def dt7(proj, rep, modules=None):
+    rep.rule('DT7', RULE_DT7)
+    n = 0
+    for fi in proj.iter_functions():
+        m = fi.module
+        if not _in_scope(m, modules):
+            continue
+        cx = set()
+        for s in ast.walk(fi.node):
+            if isinstance(s, ast.Assign) and isinstance(s.targets[0], ast.Name):
+                t = ast.unparse(s.value).replace(' ', '')
+                if '1j*' in t or '*1j' in t or 'torch.complex(' in t or 'complex128' in t or 'complex64' in t:
+                    cx.add(s.targets[0].id)
+        if not cx:
+            continue
+        for c in ast.walk(fi.node):
+            if not (isinstance(c, ast.Call) and isinstance(c.func, ast.Attribute) and isinstance(c.func.value, ast.Name) and c.func.value.id in cx):
+                continue
+            real_cast = False
+            if c.func.attr in ('astype', 'to', 'type') and c.args and any(ast.unparse(c.args[0]).endswith('.' + d) or ast.unparse(c.args[0]) == d for d in _REAL_DT):
+                real_cast = True
+            if c.func.attr in ('float', 'double', 'half') and not c.args:
+                real_cast = True
+            if c.func.attr in ('astype', 'to', 'type', 'float', 'double', 'half'):
+                n += 1
+                rep.touch(m)
+                if real_cast:
+                    rep.violation('DT7', fi.qual, f'`{ast.unparse(c)[:60]}`: `{c.func.value.id}` is complex on the path that assigns it a 1j term; the cast to a real dtype drops the '
+                                  f'imaginary part there', m, c)
+                else:
+                    rep.ok('DT7', fi.qual, f'`{ast.unparse(c)[:50]}` keeps the complex field', m, c)
+    rep.count('DT7.casts_of_complex_capable_arrays', n)
     return n
